@@ -168,3 +168,43 @@ func verifHarness_C02_udp_demux() {
 	}
 	verifAssert(false, "witness")
 }
+
+
+// a dialled connection whose peer talks first: the connect result and the
+// first bytes can be reported by one and the same epoll event
+func verifHarness_C02_dial_then_greeting() {
+	vkReset()
+	MaxOpenFiles = 32
+	g := NewEngine(verifEngineConf(verifChoose("mode", 3)))
+	var got []byte
+	g.OnData(func(c *Conn, data []byte) { got = append(got, data...) })
+	verifSched(true, 1)
+	if err := g.Start(); err != nil {
+		return
+	}
+	connected := 0
+	err := g.DialAsyncTimeout("unix", "/verif.sock", 0, func(c *Conn, err error) {
+		if err == nil {
+			connected++
+		}
+	})
+	if err != nil {
+		verifFail("dial-starts", "")
+		return
+	}
+	var f *vkFd
+	for _, x := range vk.fds {
+		if x != nil && x.kind == vkSockStream {
+			f = x
+		}
+	}
+	greeting := verifBytes("greeting", 2)
+	// the connect completes and the greeting arrives before the poller looks
+	f.connectDone(0)
+	f.peerSend(greeting)
+	verifJoin()
+	verifAssertD(connected == 1, "dial-reports-success", "")
+	verifAssertD(len(got) == 2 && verifEqBytes(got, greeting), "every-byte-delivered-exactly-once", "dial-then-greeting")
+	verifAssertD(len(f.rq) == 0, "no-input-left-unread-at-quiescence", "dial-then-greeting")
+	verifAssert(false, "witness")
+}
